@@ -28,8 +28,12 @@ pub struct World {
     pub main_result: Option<Result<(), String>>,
     /// Current op is part of the fault-free end phase.
     pub quiescing: bool,
-    /// hash index frozen by the scheduler (C14), if any.
-    pub frozen_hash: Option<usize>,
+    /// hash indices frozen by the scheduler (C14), as bit masks: `frozen_hard`
+    /// = nothing at all is done for the hash, `frozen_soft` = only its
+    /// outgoing payment stalls.
+    pub frozen_hard: u32,
+    pub frozen_soft: u32,
+    /// step of the first freeze
     pub frozen_at_step: Option<u64>,
     /// E2 watcher: heights passed to new_block whose call has not completed yet.
     pub comp_pending_blocks: Vec<u32>,
@@ -57,6 +61,20 @@ impl World {
             allow_self_route_hints: !self.cfg.no_self_hints,
             require_hash_match: true,
         }
+    }
+
+    /// Nothing is done for this hash (its RPCs are withheld, its HTLCs not delivered).
+    pub fn hard_frozen(&self, hix: usize) -> bool {
+        hix < 32 && self.frozen_hard & (1 << hix) != 0
+    }
+
+    /// The outgoing payment of this hash never progresses.
+    pub fn stalled(&self, hix: usize) -> bool {
+        hix < 32 && (self.frozen_hard | self.frozen_soft) & (1 << hix) != 0
+    }
+
+    pub fn any_frozen(&self) -> bool {
+        self.frozen_hard | self.frozen_soft != 0
     }
 
     /// Wall-clock seconds since the epoch as the plugin would read them now.
